@@ -23,9 +23,11 @@ def canon(op, a, b):
 
 
 class FactEngine(object):
-    def __init__(self, cfg, unit, subst_consts=True):
+    def __init__(self, cfg, unit, subst_consts=True, helper_summaries=None, param_bindings=None):
         self.cfg = cfg
         self.unit = unit
+        self.helper_summaries = helper_summaries
+        self.param_bindings = param_bindings or {}
         self.folder = Folder(unit)
         self.keys = Keys(unit, self.folder)
         self.fn = cfg.fn
@@ -112,7 +114,10 @@ class FactEngine(object):
                 continue
             init = ks[-1]
             isref = t.rstrip().endswith('&') and not t.rstrip().endswith('&&')
-            if not _pure(init, ref=isref) or not stable(init, d, ref=isref) or d.get('kind') == 'ParmVarDecl':
+            # (in a const method the elements of member containers cannot change either: element reads are stable)
+            relaxed = isref or (const_method and all(_root_is_this(y) for y in walk(init)
+                                                       if y.get('kind') == 'CXXOperatorCallExpr'))
+            if not _pure(init, ref=relaxed) or not stable(init, d, ref=relaxed) or d.get('kind') == 'ParmVarDecl':
                 continue
             # only scalar / pointer / reference locals
             dt = dtype(d)
@@ -121,8 +126,14 @@ class FactEngine(object):
                     or dt.endswith('* const') or dt.endswith('*const')):
                 continue
             subst[i] = init
+        self._named_tests = {i: init for i, init in subst.items()
+                             if re.match(r'^(const )?bool( const)?$', dtype(decls[i]) or '')}
         # resolve recursively (definitions precede uses, so iterate in order)
         self.keys.subst = {}
+        # parameters of an internal helper that every caller binds to the same value are keyed as that value
+        for i, kk in self.param_bindings.items():
+            if i not in written:
+                self.keys.subst[i] = kk
         for i in sorted(subst, key=lambda j: (decls[j].get('_pos') or ('', 0, 0))[1] or 0):
             self.keys.subst[i] = self.keys.key(subst[i])
         # element accesses through write-once pointer locals are keyed as the container element
@@ -216,7 +227,52 @@ class FactEngine(object):
                 out.append(canon(op, self.key(args[0]), self.key(args[1])))
                 return out
         f = self._truthy(x, truth)
-        return [f] if f else []
+        out = [f] if f else []
+        if k == 'CallExpr':
+            out += self._helper_facts(x, truth)
+        if k == 'DeclRefExpr':
+            # a named test: a write-once bool local whose initialiser is still valid here stands for that test
+            i = (x.get('referencedDecl') or {}).get('id')
+            init = getattr(self, '_named_tests', {}).get(i)
+            if init is not None:
+                sel = [fs for (fs, v) in self.bool_cases(init) if v is truth]
+                if sel:
+                    common = set(sel[0])
+                    for fs in sel[1:]:
+                        common &= set(fs)
+                    out += list(common)
+        return out
+
+    def _helper_facts(self, call, truth, _depth=0):
+        """Facts a call of a small internal predicate implies: what holds on every return of the helper that yields
+        `truth`, with the helper's parameters replaced by the arguments (its own locals keep their keys)."""
+        hs = getattr(self, 'helper_summaries', None)
+        if hs is None:
+            return []
+        c = callee(call)
+        if not (c and c[0] == 'fn' and c[1].get('_qn')):
+            return []
+        summ = hs(c[1])
+        if summ is None:
+            return []
+        ps, cases = summ
+        args = call_args(call)
+        if len(ps) != len(args):
+            return []
+        sel = [fs for (fs, v) in cases if v is truth]
+        if not sel or any(not isinstance(v, bool) for (_, v) in cases):
+            return []
+        common = set(sel[0])
+        for fs in sel[1:]:
+            common &= set(fs)
+        out = []
+        ren = [(pk, self.key(a)) for (pk, a) in zip(ps, args)]
+        for (op, a, b) in common:
+            for (pk, ak) in ren:
+                a = a.replace(pk, ak)
+                b = b.replace(pk, ak)
+            out.append(canon(op, a, b))
+        return out
 
     def bool_cases(self, e):
         """Short-circuit expansion of a boolean expression: [(facts that hold, value)] where value is
@@ -523,6 +579,20 @@ def _root_decl(e):
                 continue
         return None
     return None
+
+
+def _root_is_this(opcall):
+    """operator[] / * / -> applied (possibly through members) to an object of *this."""
+    args = call_args(opcall)
+    if not args:
+        return False
+    x = peel(args[0])
+    while x is not None and x.get('kind') == 'MemberExpr':
+        ks = kids(x)
+        if not ks:
+            return True          # implicit this
+        x = peel(ks[0])
+    return x is not None and x.get('kind') == 'CXXThisExpr'
 
 
 def _pure(e, ref=False):
